@@ -144,7 +144,7 @@ def main(argv=None):
         nshards = a.shards or meta["shards"][tier]
         shards = list(range(nshards))
     budget = a.budget or meta["budget"][tier]
-    jobs = a.jobs or (min(16, os.cpu_count() or 4) if tier == "thorough" else min(4, os.cpu_count() or 4))
+    jobs = a.jobs or (min(16, os.cpu_count() or 4) if tier == "thorough" else min(max(4, nshards), os.cpu_count() or 4))
     timeout = budget * 4 + 300
 
     results = []
